@@ -184,6 +184,29 @@ class FakeServer:
                 self.expiry[k] = self.clock() + ex
         return True
 
+    def expireat(self, k, when):
+        """EXPIREAT: the key (of any type) disappears when the server clock reaches `when` (unix seconds or a datetime)."""
+        k = s(k)
+        if k not in self.kv:
+            return 0
+        if hasattr(when, "timestamp"):
+            ts = when.timestamp()
+            from engine.symx import sym_int
+            when = sym_int(ts) if not isinstance(ts, float) else int(ts)
+        self.expiry[k] = when
+        return 1
+
+    def expire(self, k, seconds):
+        k = s(k)
+        if k not in self.kv or self.clock is None:
+            return 0
+        if hasattr(seconds, "total_seconds"):
+            from engine.symx import sym_int
+            secs = seconds.total_seconds()
+            seconds = sym_int(secs) if not isinstance(secs, float) else int(secs)
+        self.expiry[k] = self.clock() + seconds
+        return 1
+
     def delete(self, *ks):
         n = 0
         for k in ks:
